@@ -100,7 +100,7 @@ def foreign_program_reads(J, P, paths, pr, name, skip=0):
             t = stack.pop(); i = t.get_id()
             if i in seen: continue
             seen.add(i)
-            if t.num_args() == 2 and t.decl().name() == 'select' and t.arg(0).eq(M0): addrs.append(t.arg(1))
+            if t.num_args() == 2 and t.decl().name() == 'select' and mentions(t.arg(1), 'prog_base'): addrs.append(t.arg(1))      # a read through the program slice (memory may carry this iteration's stores)
             stack.extend(t.children())
         for a in addrs:
             k = (a.get_id())
